@@ -106,8 +106,12 @@ func drawUnit(t *rapid.T, name string, avoid map[string]bool, prev *Unit) *Unit 
 		vals := []interface{}{strings.ToUpper(en) + "_V0", 0}
 		used := map[int]bool{0: true}
 		for v := 1; v < nv; v++ {
-			num := rapid.OneOf(rapid.IntRange(-3, 10), rapid.SampledFrom([]int{-2147483648, 2147483647, 127, 128, 16384, -1})).Draw(t, "num")
+			num := rapid.OneOf(rapid.IntRange(-3, 10), rapid.SampledFrom([]int{-2147483648, 2147483647, 127, 128, 16384, -1, 0, 0})).Draw(t, "num")
 			if used[num] {
+				// an alias (also of the zero value) whose name sorts before the names declared so far
+				if rapid.Bool().Draw(t, "alias") {
+					vals = append(vals, fmt.Sprintf("%s_A%d", strings.ToUpper(en), v), num)
+				}
 				continue
 			}
 			used[num] = true
@@ -215,7 +219,7 @@ func drawUnit(t *rapid.T, name string, avoid map[string]bool, prev *Unit) *Unit 
 		// a custom json_name now and then (unique by construction)
 		jn := func(fd *descriptorpb.FieldDescriptorProto) {
 			if rapid.IntRange(0, 7).Draw(t, "jsonname") == 0 {
-				fd.JsonName = proto.String(fmt.Sprintf("jn %d-%s", fd.GetNumber(), rapid.SampledFrom([]string{"x", "Y", "@z", "with space", "ünï"}).Draw(t, "jn")))
+				fd.JsonName = proto.String(fmt.Sprintf("jn %d-%s", fd.GetNumber(), rapid.SampledFrom([]string{"x", "Y", "@z", "with space", "ünï", "tick`", "q\"uote", "back\\slash"}).Draw(t, "jn")))
 			}
 		}
 		nField := rapid.IntRange(0, 10).Draw(t, "nField")
